@@ -272,7 +272,8 @@ class C03Bounded(Bounded):
         # chains of three and four that put regular-expression flags, expand and the wildcard modifiers around each other (always run)
         extra = [c for c in itertools.chain(itertools.permutations(("re", "i", "expand")), itertools.permutations(("re", "m", "s", "expand")), itertools.permutations(("re", "i", "expand", "s")),
                                             itertools.permutations(("expand", "cased", "contains")), itertools.permutations(("expand", "endswith", "cased")), itertools.permutations(("re", "expand", "startswith")),
-                                            itertools.permutations(("windash", "contains", "all")), itertools.permutations(("wide", "base64offset", "contains")), itertools.permutations(("utf16le", "base64", "cased")))]
+                                            itertools.permutations(("windash", "contains", "all")), itertools.permutations(("wide", "base64offset", "contains")), itertools.permutations(("utf16le", "base64", "cased")),
+                                            itertools.permutations(("fieldref", "startswith", "endswith")), itertools.permutations(("fieldref", "contains", "endswith")), itertools.permutations(("fieldref", "startswith", "contains")))]
         chains = [(n, chain) for n in range(1, maxlen + 1) for chain in itertools.product(mods, repeat=n)] + ([(len(c), c) for c in extra] if maxlen < 3 else [(len(c), c) for c in extra if len(c) > 3])
         for n, chain in chains:
             if True:
